@@ -598,7 +598,8 @@ class ExperimentPackage(StorageStructurePathResolver):
                                 targetFolder, sourceFolder)), targetPath, path)
 
                     sourceFolder, method = sourceFolder.rsplit(':', 1)
-                    target_folder_path = os.path.join(targetPath, targetFolder)
+                    # VV: Create exactly the path that gets checked (`link/../x` is `x`, not a sibling of where link points)
+                    target_folder_path = os.path.normpath(os.path.join(targetPath, targetFolder))
 
                     # VV: an entry which is nested under a folder that the manifest has just linked would end up where
                     #     the link points to
@@ -619,6 +620,12 @@ class ExperimentPackage(StorageStructurePathResolver):
                         raise ValueError("Unknown manifest folder method for %s: %s" % (targetFolder, sourceFolder))
 
                 conf_dir = os.path.join(targetPath, "conf")
+
+                if os.path.realpath(conf_dir) != os.path.join(os.path.realpath(targetPath), "conf"):
+                    # VV: `conf` has been linked to some other folder, the definition of the workflow would be written there
+                    raise experiment.model.errors.PackageCreateError(
+                        ValueError("The conf folder of the instance (%s) is outside the instance directory" % (
+                            os.path.realpath(conf_dir))), targetPath, path)
 
                 if 'conf' not in manifest:
                     # VV: It's OK for the conf folder to already exist, it could have commonly used pipeline definitions
